@@ -83,7 +83,7 @@ def well_formed(repo):
 
 
 def contracts(repo):
-    items = [LC.reply_elements_spec(name='Logix.reply_elements', ensures=False)]
+    items = [LC.reply_elements_spec(ensures=False, ctx=c) for c in ('read_tag', 'read_frag', 'write_tag', 'write_frag')]
     items += LC.request_specs()
     items.append(Custom('well_formed', well_formed, replay=replay_cell,
                         note='allowed_tag_types read from the AST of Logix.request; one obligation per (tag type, accepted request type)'))
@@ -215,6 +215,30 @@ def bounded(tier, seed):
             if not ok:
                 violations.append(dict(key='history %s step %d: %s %s[%d] x%d' % (ttype, step, kind, name, idx, elm),
                                        observed='status %r tags %r' % (sim.status_of(d), snapshot(model)), required=want))
+    # Set Attribute Single with every byte count around the exact one (all-or-nothing, no growth/shrink)
+    import struct
+    from .C03 import numpath, FMT
+    for ttype in ('SINT', 'INT', 'DINT', 'LINT'):
+        for n in (1, 2, 3):
+            lx = sim.fresh({'A': (ttype, n, {'segment': [{'class': 0x93}, {'instance': 3}, {'attribute': 1}]})})
+            siz = struct.calcsize(FMT[ttype])
+            for nbytes in range(0, siz * (n + 2) + 1):
+                ev += 1
+                before = sim.tag_values('A')
+                raw = [(7 * i + 1) % 200 for i in range(nbytes)]
+                d = sim.request(lx, service=0x10, path=numpath(0x93, 3, 1), set_attribute_single={'data': raw})
+                after = sim.tag_values('A')
+                distinct.add(('set_single', ttype, n, nbytes - siz * n))
+                if nbytes == siz * n:
+                    want = [struct.unpack(FMT[ttype], bytes(raw[i:i + siz]))[0] for i in range(0, nbytes, siz)]
+                    ok = d.status == 0 and after == want
+                else:
+                    ok = d.status != 0 and after == before
+                ok = ok and len(after) == n
+                if not ok and len(violations) < 8:
+                    violations.append(dict(key='set_attribute_single %s[%d] with %d bytes' % (ttype, n, nbytes),
+                                           observed='status %r tag %r' % (d.status, after),
+                                           required='exact byte count stores the values; any other count is refused and leaves the tag (and its length) unchanged'))
     return dict(evaluations=ev, distinct_nontrivial=len(distinct),
                 rule='seeded request histories per tag type on two array tags: index in {0,1,len-1,len,len+1,random}, count in '
                      '{0,1,2,rest,rest+1,len,len+1}, every request type incl. widest values into narrower tags; after each request all '
